@@ -185,6 +185,7 @@ struct Position ghost_pos1;
 /* ghost move monitor (DESIGN section 3): the generators append only through MoveList::addMove; ghost_hits counts how often
    the arbitrary move ghost_m has been appended */
 struct Move ghost_m; int ghost_hits;
+int ghost_hits0, ghost_ksq; U64 ghost_tg, ghost_Q0, ghost_R0, ghost_B0, ghost_N0; _Bool ghost_tQ, ghost_tR, ghost_tB, ghost_tN, ghost_tK;
 #define GM_IS(f, t, p) ((f) == ghost_m.from_ && (t) == ghost_m.to_ && (p) == ghost_m.promoteTo_)
 #define GM_TO_IN(mask) (ghost_m.to_ >= 0 && ghost_m.to_ < 64 && ((((U64)(mask)) >> ghost_m.to_) & 1) != 0)
 #define GM_OK (ghost_m.from_ >= 0 && ghost_m.from_ < 64 && ghost_m.to_ >= 0 && ghost_m.to_ < 64 && ghost_m.promoteTo_ >= 0 && ghost_m.promoteTo_ <= 12)
@@ -309,7 +310,9 @@ CONTRACTS.update({
     'MoveGen_inCheck': {'requires': [_POS, 'wf_bb(pos)', 'FLAGS_OK(pos)', 'men_ok(pos)'], 'assigns': [],
                         'ensures': ['__CPROVER_return_value == spec_in_check(pos)']},
     'MoveGen_givesCheck': {'requires': [_POS, '__CPROVER_is_fresh(m, sizeof(*m))', 'wf_bb(pos)', 'FLAGS_OK(pos)', 'men_ok(pos)', 'wf_rights(pos)',
-                                        'spec_pseudo_legal(pos, m)', 'spec_leaves_king_safe(pos, m)', 'GC_CASE(pos, m)'],
+                                        'spec_pseudo_legal(pos, m)', 'spec_leaves_king_safe(pos, m)', 'GC_CASE(pos, m)', 'same_board(pos, &ghost_pos1)',
+                                        # legal position: the side not to move is not in check (the FEN reader rejects positions where the king can be captured)
+                                        '!spec_in_check_b(pos->squares, !pos->whiteMove)'],
                            'assigns': [],
                            # the verdict agrees with playing the move and looking at the opponent's king
                            'ensures': ['__CPROVER_return_value == spec_gives_check(pos, m)']},
@@ -343,15 +346,18 @@ def _evasion_contract(white):
         'assigns': ['moveList->size', 'ghost_hits'],
         # the generated list is exactly the set of evasion candidates, each once
         'ensures': ['ghost_hits == __CPROVER_old(ghost_hits) + (spec_evasion_candidate(pos, &ghost_m) ? 1 : 0)'],
-        'ghost_entry': ('int ghost_hits0 = ghost_hits; U64 ghost_tg = spec_evasion_targets(pos); int ghost_ksq = spec_king_sq(pos->squares, %d);'
-                        ' U64 ghost_Q0 = pos->pieceTypeBB_[%s], ghost_R0 = pos->pieceTypeBB_[%s], ghost_B0 = pos->pieceTypeBB_[%s], ghost_N0 = pos->pieceTypeBB_[%s];'
-                        ' _Bool ghost_tQ = spec_gm_slider(pos, Piece_WQUEEN, ghost_tg), ghost_tR = spec_gm_slider(pos, Piece_WROOK, ghost_tg), ghost_tB = spec_gm_slider(pos, Piece_WBISHOP, ghost_tg),'
-                        ' ghost_tN = spec_gm_slider(pos, Piece_WKNIGHT, ghost_tg), ghost_tK = spec_gm_slider(pos, Piece_WKING, ~0ULL);') % (me, Q, R, B, N),
+        'ghost_defs': ['ghost_hits0 == ghost_hits', 'ghost_tg == spec_evasion_targets(pos)', 'ghost_ksq == spec_king_sq(pos->squares, %d)' % me,
+                       'ghost_Q0 == pos->pieceTypeBB_[%s] && ghost_R0 == pos->pieceTypeBB_[%s] && ghost_B0 == pos->pieceTypeBB_[%s] && ghost_N0 == pos->pieceTypeBB_[%s]' % (Q, R, B, N),
+                       'ghost_tQ == spec_gm_slider(pos, Piece_WQUEEN, ghost_tg)', 'ghost_tR == spec_gm_slider(pos, Piece_WROOK, ghost_tg)', 'ghost_tB == spec_gm_slider(pos, Piece_WBISHOP, ghost_tg)',
+                       'ghost_tN == spec_gm_slider(pos, Piece_WKNIGHT, ghost_tg)', 'ghost_tK == spec_gm_slider(pos, Piece_WKING, ~0ULL)'],
         'loops': {0: loop('squares', 'ghost_Q0', 'ghost_tQ', 0), 1: loop('squares', 'ghost_R0', 'ghost_tR', 1), 2: loop('squares', 'ghost_B0', 'ghost_tB', 2),
                   3: loop('knights', 'ghost_N0', 'ghost_tN', 4)},
     }
 CONTRACTS['MoveGen_checkEvasions_w'] = _evasion_contract(True)
 CONTRACTS['MoveGen_checkEvasions_b'] = _evasion_contract(False)
+for _k in ('MoveGen_checkEvasions_w', 'MoveGen_checkEvasions_b'):
+    # ghost values are *defined* by (assumed) equalities in the precondition: spec functions must not be called from ghost code in the body
+    CONTRACTS[_k]['requires'] += CONTRACTS[_k].pop('ghost_defs')
 
 HARNESS = posunit.HARNESS.split('void h_setPiece')[0] + r'''
 void h_sqAttacked_w(void) { struct Position* p; int sq; U64 occ; havoc_tables(); MoveGen_sqAttacked_w(p, sq, occ); CANARY_POINT; }
@@ -359,11 +365,12 @@ void h_sqAttacked_b(void) { struct Position* p; int sq; U64 occ; havoc_tables();
 void h_sqAttacked3(void) { struct Position* p; int sq; U64 occ; havoc_tables(); MoveGen_sqAttacked3(p, sq, occ); CANARY_POINT; }
 void h_sqAttacked2(void) { struct Position* p; int sq; havoc_tables(); MoveGen_sqAttacked2(p, sq); CANARY_POINT; }
 void h_inCheck(void) { struct Position* p; havoc_tables(); MoveGen_inCheck(p); CANARY_POINT; }
-void h_givesCheck(void) { struct Position* p; struct Move* m; havoc_tables(); MoveGen_givesCheck(p, m); CANARY_POINT; }
+void h_givesCheck(void) { struct Position* p; struct Move* m; havoc_tables(); __CPROVER_havoc_object(&ghost_pos1); MoveGen_givesCheck(p, m); CANARY_POINT; }
 void h_isLegal(void) { struct Position* p; struct Move* m; _Bool ic = (nondet_int() != 0); havoc_tables(); __CPROVER_havoc_object(&ghost_pos1); MoveGen_isLegal(p, m, ic); CANARY_POINT; }
 '''
 HARNESS += r'''
-static void havoc_gm(void) { __CPROVER_havoc_object(&ghost_m); ghost_hits = nondet_int(); }
+static void havoc_gm(void) { __CPROVER_havoc_object(&ghost_m); ghost_hits = nondet_int(); ghost_hits0 = nondet_int(); ghost_ksq = nondet_int(); ghost_tg = nondet_u64(); ghost_Q0 = nondet_u64(); ghost_R0 = nondet_u64(); ghost_B0 = nondet_u64(); ghost_N0 = nondet_u64();
+    ghost_tQ = (nondet_int() != 0); ghost_tR = (nondet_int() != 0); ghost_tB = (nondet_int() != 0); ghost_tN = (nondet_int() != 0); ghost_tK = (nondet_int() != 0); }
 void h_addMovesByMask(void) { struct MoveList* ml; int sq0; U64 mask; havoc_tables(); havoc_gm(); MoveGen_addMovesByMask(ml, sq0, mask); CANARY_POINT; }
 void h_addPawnDouble(void) { struct MoveList* ml; int d; U64 mask; havoc_tables(); havoc_gm(); MoveGen_addPawnDoubleMovesByMask(ml, mask, d); CANARY_POINT; }
 void h_addPawnMoves_w(void) { struct MoveList* ml; int d; U64 mask; _Bool all = (nondet_int() != 0); havoc_tables(); havoc_gm(); MoveGen_addPawnMovesByMask_w(ml, mask, d, all); CANARY_POINT; }
